@@ -91,7 +91,7 @@ def most_recent__samples():
 
 def immut_history(sp, rig="M", L=3, first=None, ops=None, clock="tick"):
     with Env(sp, rig=rig, clock=clock, clock_kw={"sites": {"sm"}, "maxd": 1, "budget": L + 3}) as e:
-        ops = ops or ["append", "delete", "replace", "expire", "delsnap", "gc", "failed_commit"]
+        ops = ops or ["append", "delete", "replace", "expire", "delsnap", "gc", "failed_commit", "reused_txn"]
         h = H.History(sp, e, ops, checks=[H.check_state, H.check_immutable])
         h.ops = ["append"]
         h.step(-2)
@@ -117,7 +117,7 @@ def obligations(tier):
                   bounds="4 snapshots, commit-ordered symbolic timestamps (ties allowed), symbolic query time, symbolic retained subset", weight=6))
     obs.append(Ob("b.most_recent", "vf.props.c09:most_recent", {}, engine="crosshair", timeout=T,
                   bounds="4 snapshots, symbolic timestamps, symbolic deleted snapshot and retained subset, with / without snapshot log", weight=6))
-    all_ops = ["append", "delete", "replace", "expire", "delsnap", "gc", "failed_commit"]
+    all_ops = ["append", "delete", "replace", "expire", "delsnap", "gc", "failed_commit", "reused_txn"]
     if tier == "quick":
         for f in all_ops:
             obs.append(Ob(f"a.history.L.{f}.L2", "vf.props.c09:immut_history", {"rig": "L", "L": 2, "first": f, "_must_reach": ["ran"], "_sample_every": 25},
